@@ -57,10 +57,21 @@ class _TSubmitCb(_TVal):
     name = "SubmitCallback"
 
 
-class _TExcClasses(_TVal):
-    """A tuple of exception classes (second argument of isinstance)."""
+ExcClassesS = z3.DeclareSort("ExcClasses")
+
+
+class _TExcClasses(T):
+    """A tuple of exception classes (second argument of isinstance); own sort, so that no other model takes it for a value."""
 
     name = "ExcClasses"
+
+    def sort(self):
+        return ExcClassesS
+
+    def embed(self, st, v):
+        if isinstance(v, SV) and v.ty == self:
+            return v.term
+        raise Unsupported(f"cannot embed {v!r} as ExcClasses")
 
 
 class _TProc(T):
@@ -146,7 +157,7 @@ CUR_PROC_NAME = z3.Const("c13_current_process_name", TStr.sort())
 CUR_DAEMONIC = z3.Bool("c13_current_process_is_daemonic")
 
 is_exc = z3.Function("is_exc", ValS, z3.BoolSort())  # isinstance(v, BaseException)
-inst_of = z3.Function("inst_of", ValS, ValS, z3.BoolSort())  # isinstance(v, classes)
+inst_of = z3.Function("inst_of", ValS, ExcClassesS, z3.BoolSort())  # isinstance(v, classes)
 task_raises = z3.Function("task_raises", ValS, ValS, z3.BoolSort())
 task_value = z3.Function("task_value", ValS, ValS, ValS)
 obj_id = z3.Function("obj_id", ValS, z3.IntSort())
